@@ -19,8 +19,8 @@ import (
 )
 
 func init() {
-	register(&Rule{ID: "SIB-1", Doc: "deprecated aliases: every exported function documented `Deprecated: Call X.` has the same canonical SSA as X (closures included) or is a single call of X with its parameters in order", Run: ruleSIB1})
-	register(&Rule{ID: "SIB-2", Doc: "build variants: the tinywasm twins of the generator, grower and factories have the same canonical SSA as their default-build counterparts (type names mapped); every source file of package gtree is compiled into exactly the variants its build constraint says", Run: ruleSIB2})
+	register(&Rule{ID: "SIB-1", Doc: "deprecated aliases: every exported function documented `Deprecated: Call X.` has the same event skeleton (calls, stores, returns with argument terms and guards) as X (closures included) or is a single call of X with its parameters in order", Run: ruleSIB1})
+	register(&Rule{ID: "SIB-2", Doc: "build variants: the tinywasm twins of the generator, grower and factories have the same event skeleton (calls, field stores, returns with argument terms and branch conditions; loop spelling and local names abstracted) as their default-build counterparts (type names mapped); every source file of package gtree is compiled into exactly the variants its build constraint says", Run: ruleSIB2})
 	register(&Rule{ID: "SIB-4", Doc: "traversal order: every per-node traversal acts on the node before a forward loop over node.children and recurses on the loop element; copying traversals use one index for source and copy", Run: ruleSIB4})
 	register(&Rule{ID: "SIB-6", Doc: "the pipeline workers call, per root, exactly the per-root methods their simple-mode stage calls (same function objects through the embedded simple type)", Run: ruleSIB6})
 }
@@ -190,7 +190,7 @@ func firstDiff(a, b string) string {
 			y = lb[i]
 		}
 		if x != y {
-			return fmt.Sprintf("first difference at canonical line %d: %q vs %q", i+1, strings.TrimSpace(x), strings.TrimSpace(y))
+			return fmt.Sprintf("first difference at skeleton line %d: %q vs %q", i+1, strings.TrimSpace(x), strings.TrimSpace(y))
 		}
 	}
 	return ""
@@ -233,9 +233,9 @@ func ruleSIB1(w *World) []Ob {
 				continue
 			}
 			id := func(s string) string { return s }
-			a, b := canonFunc(p, alias, id), canonFunc(p, target, id)
+			a, b := skeleton(p, alias, id), skeleton(p, target, id)
 			if a == b {
-				l.ok(p.FuncID(alias), construct, p.Pos(fd.Pos()), fmt.Sprintf("canonical SSA identical to the replacement's (%d lines, closures included)", strings.Count(a, "\n")), true, "alias")
+				l.ok(p.FuncID(alias), construct, p.Pos(fd.Pos()), fmt.Sprintf("event skeleton identical to the replacement's (%d events, closures included)", strings.Count(a, "\n")), true, "alias")
 			} else {
 				l.bad(p.FuncID(alias), construct, p.Pos(fd.Pos()), "the deprecated alias no longer does what "+m[1]+" does: "+firstDiff(a, b), "alias")
 			}
@@ -301,9 +301,9 @@ func ruleSIB2(w *World) []Ob {
 			l.undecided(pr[1], construct, "-", "one of the twins was not found (renamed or removed): the pair table in rules_sib.go lost its anchor", "twin")
 			continue
 		}
-		a, b := canonFunc(d, fd, stripSimple), canonFunc(pw, fw, stripSimple)
+		a, b := skeleton(d, fd, stripSimple), skeleton(pw, fw, stripSimple)
 		if a == b {
-			l.ok(pr[1], construct, pw.Pos(fw.Pos()), fmt.Sprintf("canonical SSA identical (%d lines) after mapping *Simple type names", strings.Count(a, "\n")), true, "twin")
+			l.ok(pr[1], construct, pw.Pos(fw.Pos()), fmt.Sprintf("event skeletons identical (%d events) after mapping *Simple type names", strings.Count(a, "\n")), true, "twin")
 		} else {
 			l.bad(pr[1], construct, pw.Pos(fw.Pos()), "the tinywasm twin and the default-build function differ (edited on one side only?): "+firstDiff(a, b), "twin")
 		}
@@ -765,4 +765,93 @@ func baseOfFieldLoad(v ssa.Value) ssa.Value {
 		}
 	}
 	return nil
+}
+
+
+// ---------------------------------------------------------------------------------------------
+// event skeleton: what a function does, abstracted from how it is spelled
+
+// skeleton lists, in source order, the function's effects — calls, field stores, sends, returns — each
+// with its argument terms and the branch conditions it depends on.  Register names, local variable
+// names, loop spelling (range vs index), if/else orientation and statement layout do not show.
+func skeleton(p *Prog, fn *ssa.Function, norm func(string) string) string {
+	var b strings.Builder
+	var emit func(f *ssa.Function, label string)
+	emit = func(f *ssa.Function, label string) {
+		t := &termer{p: p, byIndex: true}
+		fmt.Fprintf(&b, "func %s\n", label)
+		for _, blk := range f.Blocks {
+			for _, in := range blk.Instrs {
+				ev := ""
+				switch x := in.(type) {
+				case *ssa.Call:
+					if bi, ok := x.Common().Value.(*ssa.Builtin); ok && (bi.Name() == "len" || bi.Name() == "cap") {
+						continue
+					}
+					if f2 := x.Common().StaticCallee(); f2 != nil && !p.InModule(f2) {
+						switch pkgOfFunc(f2).Pkg.Path() {
+						case "iter":
+							continue
+						}
+					}
+					ev = "call " + t.term(x, 0)
+				case *ssa.Go:
+					ev = "go " + calleeString(x.Common())
+				case *ssa.Defer:
+					ev = "defer " + calleeString(x.Common())
+				case *ssa.Store:
+					if fa, ok := x.Addr.(*ssa.FieldAddr); ok {
+						ev = "store " + fieldName(fa.X.Type(), fa.Field) + "(" + t.term(fa.X, 0) + ") = " + t.term(x.Val, 0)
+					}
+				case *ssa.Send:
+					ev = "send " + t.term(x.X, 0)
+				case *ssa.Return:
+					var parts []string
+					for _, v := range rr(x) {
+						parts = append(parts, t.term(v, 0))
+					}
+					ev = "return " + strings.Join(parts, ", ")
+				case *ssa.MakeClosure:
+					ev = "closure"
+				}
+				if ev == "" {
+					continue
+				}
+				var gs []string
+				for _, g := range guardsOf(blk) {
+					c, pol := flattenCond(g.Cond, g.Pol)
+					if isRangeLoopCond(c) || isIndexLoopCond(c) {
+						continue
+					}
+					gs = append(gs, condText(t, c, pol, 0))
+				}
+				sort.Strings(gs)
+				fmt.Fprintf(&b, "  %s   if [%s]\n", ev, strings.Join(gs, " & "))
+			}
+		}
+		for i, a := range f.AnonFuncs {
+			emit(a, fmt.Sprintf("%s$%d", label, i+1))
+		}
+	}
+	emit(fn, "SELF")
+	out := norm(b.String())
+	out = strings.ReplaceAll(out, relFunc(fn), "SELF")
+	return out
+}
+
+// isIndexLoopCond: i < len(x) with i a loop phi.
+func isIndexLoopCond(c ssa.Value) bool {
+	b, ok := c.(*ssa.BinOp)
+	if !ok {
+		return false
+	}
+	isLen := func(v ssa.Value) bool {
+		cc, ok := v.(*ssa.Call)
+		return ok && isBuiltinCall(cc, "len")
+	}
+	isLoopPhi := func(v ssa.Value) bool {
+		ph, ok := v.(*ssa.Phi)
+		return ok && inLoop(ph)
+	}
+	return (isLen(b.Y) && isLoopPhi(b.X)) || (isLen(b.X) && isLoopPhi(b.Y))
 }
